@@ -133,16 +133,16 @@ def dcl_record(cdc, case):
 
 
 def hits_at(x, xc, yc):
-    """ordinates of all edges of the closed polygon (xc, yc closed) spanning abscissa x, and the
-    ordinate intervals of the (nearly) vertical edges there: on an edge whose abscissae differ by
-    less than 1e-9 of the extent the ordinate at x is not determined (any point of it is at x)"""
+    """ordinates of all edges of the closed polygon (xc, yc closed) spanning abscissa x, and -
+    separately - the ordinate intervals of the (nearly) vertical edges there: on an edge whose
+    abscissae differ by less than 1e-9 of the extent the ordinate at x is not determined in
+    floating point (every point of it is at x within round-off)"""
     out, steep = [], []
     w = float(np.max(xc) - np.min(xc))
     for i in range(len(xc) - 1):
         xa, xb, ya, yb = xc[i], xc[i + 1], yc[i], yc[i + 1]
         if min(xa, xb) <= x <= max(xa, xb):
             if abs(xb - xa) <= 1e-9 * w:
-                out.extend([ya, yb])
                 steep.append([min(ya, yb), max(ya, yb)])
             else:
                 out.append(ya + (x - xa) * (yb - ya) / (xb - xa))
@@ -345,7 +345,7 @@ def selftest_records():
         r = dict(src)
         r.update(chg)
         r["id"] = 2_000_000_000 + k
-        out.append((r, want if want is not None else ([] if expect is None else [expect])))
+        out.append((r, want if want is not None else ([] if expect is None or expect == [] else [expect])))
 
     put(isect, None)
     put(isect, "ExactlyTheCrossings", ox=[], oy=[])
@@ -372,6 +372,9 @@ def selftest_records():
     put(dcf, "TopAtVertex", rk=[2], rx=[10], ry=[40])
     put(dcf, "OnContour", ry=[20, 40], want=["OnContour", "TopOrdinate"])
     put(dcf, "TopOrdinate", ry=[20, 40], steep=[[], [[0, 30]], []])
+    put(dcf, [], ry=[45, 40], steep=[[], [[0, 50]], []])
+    put(dcf, "TopOrdinate", ry=[55, 40], steep=[[], [[0, 50]], []], want=["OnContour", "TopOrdinate"])
+    put(dcf, [], hits=[[], [], [0, 40, 40]], ry=[5, 40], steep=[[], [[0, 50]], []])
     put(dcf, "Omission", rk=[1, 2, 3], rx=[-5, 10, 20], ry=[0, 40, 40], want=["Omission", "OnContour"])
     put(dcf, "RequestedAbscissa", rk=[3, 2])
     put(dcf, "RequestedAbscissa", rx=[11, 20])
@@ -402,7 +405,7 @@ def judge(ctx, vc, cases, label, selftest=False, chunk=50000):
         elif c["kind"] == "dcl":
             nontrivial = len(r["rx"]) > 0
         else:
-            nontrivial = len(r["rx"]) > 0 and any(len(h) > 2 for h in r["hits"]) or c["steps_kind"] != "list"
+            nontrivial = (len(r["rx"]) > 0 and any(len(h) > 2 for h in r["hits"])) or c["steps_kind"] != "list"
         ctx.case(key_of(c, ycl[i]), nontrivial)
         for clause in failing.get(r["id"], []):
             detail = {k: (v if not isinstance(v, list) or len(v) <= 12 else v[:12] + ["..."]) for k, v in r.items()
